@@ -377,9 +377,17 @@ def main():
         path = write_replay(pid, payload)
         violations.append((kind, path, found))
 
-    seen_known = set()
+    # failures that are listed known findings are set aside first: they must neither use up the
+    # report quota nor hide a correspondence mismatch that has another cause
+    unlisted = []
+    for pf in pred_failures:
+        k = match_known(pid, pf[2], pf[3], known)
+        if k:
+            known_hits.append(k)
+        else:
+            unlisted.append(pf)
     seen_msgs = set()
-    for (area, cmd, a, msg) in pred_failures:
+    for (area, cmd, a, msg) in unlisted:
         if msg in seen_msgs or len(seen_msgs) >= 3:
             continue
         seen_msgs.add(msg)
@@ -392,7 +400,7 @@ def main():
                              "exit_code": rc, "stderr_tail": err,
                              "message": "harness run ended abnormally (sanitizer report, signal or uncaught exception)"},
                True, err)
-    if mismatches and not pred_failures:
+    if mismatches and not unlisted:
         # correspondence broke, the direct predicate saw nothing on this run: widen the search
         found = None
         if pred:
@@ -407,7 +415,7 @@ def main():
                             msg = pred(a, st)
                         except Exception as e:
                             msg = None
-                        if msg:
+                        if msg and not match_known(pid, a, msg, known):
                             found = (cmd, a, msg)
                             break
                     if found:
@@ -430,7 +438,7 @@ def main():
         report("obligation", {"property": pid, "kind": "proof-obligation-broken", "theorems": broken_obligations,
                               "notes": notes, "lake_output_tail": out_props[-3000:],
                               "message": "theorem(s) no longer check against the model regenerated from /repo"},
-               bool(pred_failures), "")
+               bool(unlisted), "")
 
     hit_ids = {k.get("id") for k in known_hits}
     for kk in known:
